@@ -23,24 +23,25 @@ const ModPath = "github.com/magisterquis/curlrevshell"
 
 // Prog is the loaded program.
 type Prog struct {
-	Repo     string
-	Fset     *token.FileSet
-	Pkgs     []*packages.Package          /* Module packages, sorted by path. */
-	ByPath   map[string]*packages.Package /* Module packages by import path. */
-	SSA      *ssa.Program
-	SSAPkg   map[string]*ssa.Package  /* By import path. */
-	AllPkgs  int                      /* Number of packages seen, deps included. */
-	Overlay  map[string][]byte        /* In-memory file replacements (self-test mutants). */
-	funcs    []*ssa.Function          /* Source functions of the module, anons included. */
-	Flat     *ssa.FlattenStats        /* What helper inlining did. */
-	Helpers  []string                 /* Helper functions folded into their callers. */
-	Canon    int                      /* Operations rewritten to their canonical spelling. */
-	merged   map[string]*ssa.Function /* reference name → the function its body was written into */
-	renamed  map[string]*ssa.Function /* reference name → the function which took its place */
-	Lowered  int
-	Promoted int                      /* Functions whose struct parameters were replaced by their fields. */
-	Unrolled int                      /* Functions in which a loop over a literal table was unrolled. */
-	Devirt   int                      /* Interface calls resolved to the one implementing type. */
+	Repo       string
+	Fset       *token.FileSet
+	Pkgs       []*packages.Package          /* Module packages, sorted by path. */
+	ByPath     map[string]*packages.Package /* Module packages by import path. */
+	SSA        *ssa.Program
+	SSAPkg     map[string]*ssa.Package  /* By import path. */
+	AllPkgs    int                      /* Number of packages seen, deps included. */
+	Overlay    map[string][]byte        /* In-memory file replacements (self-test mutants). */
+	funcs      []*ssa.Function          /* Source functions of the module, anons included. */
+	Flat       *ssa.FlattenStats        /* What helper inlining did. */
+	Helpers    []string                 /* Helper functions folded into their callers. */
+	Canon      int                      /* Operations rewritten to their canonical spelling. */
+	merged     map[string]*ssa.Function /* reference name → the function its body was written into */
+	renamed    map[string]*ssa.Function /* reference name → the function which took its place */
+	Lowered    int
+	ifaceNames map[string]bool /* method names of the module's own interface types */
+	Promoted   int             /* Functions whose struct parameters were replaced by their fields. */
+	Unrolled   int             /* Functions in which a loop over a literal table was unrolled. */
+	Devirt     int             /* Interface calls resolved to the one implementing type. */
 }
 
 // LoadOpts tunes loading.
@@ -300,6 +301,34 @@ var foldedRefFuncs = map[string]bool{
 
 // flatten folds helpers into their callers and hides the helpers which are no
 // longer referenced.
+// ifaceMethodNames: the names of the methods of the interface types the module
+// declares (named types, and interfaces written out in signatures and fields
+// are not looked for: a method value reached only that way is found by its
+// static call or binding).
+func (p *Prog) ifaceMethodNames() map[string]bool {
+	if nil != p.ifaceNames {
+		return p.ifaceNames
+	}
+	p.ifaceNames = map[string]bool{}
+	for _, pk := range p.Pkgs {
+		sc := pk.Types.Scope()
+		for _, n := range sc.Names() {
+			tn, ok := sc.Lookup(n).(*types.TypeName)
+			if !ok {
+				continue
+			}
+			it, ok := tn.Type().Underlying().(*types.Interface)
+			if !ok {
+				continue
+			}
+			for k := 0; k < it.NumMethods(); k++ {
+				p.ifaceNames[it.Method(k).Name()] = true
+			}
+		}
+	}
+	return p.ifaceNames
+}
+
 // theProg is the program being judged (for helpers which have no other way
 // to ask about package-level variables).
 var theProg *Prog
@@ -460,12 +489,43 @@ func (p *Prog) flatten() {
 			visit(a)
 		}
 	}
+	/* A method is also reached through an interface: every method of a type
+	some value of which is put into an interface stays (io.Writer(termWriter{s})
+	— Write is called by whoever is handed the writer). */
+	var visitIface func(f *ssa.Function)
+	visitIface = func(f *ssa.Function) {
+		for _, b := range f.Blocks {
+			for _, i := range b.Instrs {
+				mi, ok := i.(*ssa.MakeInterface)
+				if !ok {
+					continue
+				}
+				ms := p.SSA.MethodSets.MethodSet(mi.X.Type())
+				for k := 0; k < ms.Len(); k++ {
+					/* Through an interface only exported methods can be
+					reached from outside the module (fmt's Stringer,
+					io.Writer, …), and unexported ones only through an
+					interface the module itself declares. */
+					if name := ms.At(k).Obj().Name(); !ast.IsExported(name) && !p.ifaceMethodNames()[name] {
+						continue
+					}
+					if g := p.SSA.MethodValue(ms.At(k)); nil != g && isHelper(g) {
+						still[g] = true
+					}
+				}
+			}
+		}
+		for _, a := range f.AnonFuncs {
+			visitIface(a)
+		}
+	}
 	for changed := true; changed; {
 		changed = false
 		n := len(still)
 		for _, f := range tops {
 			if !isHelper(f) || still[f] {
 				visit(f)
+				visitIface(f)
 			}
 		}
 		changed = len(still) != n
